@@ -327,11 +327,19 @@ class SymInt:
         ea, la, ha = a
         eb, lb, hb = b
         W = ENG.W
-        if hb > 2 * W:
-            # the declared interval is wide, but the path condition may bound the count
-            if ENG.decide(eb > W):
+        if hb > 2 * W or (max(abs(la), abs(ha)) << hb) >= (1 << (W - 1)):
+            # the interval is wide, but the path condition may bound the count: ask the solver
+            # (pure queries, no fork) for the least upper bound by bisection
+            lo_, hi_ = max(lb, 0), min(hb, 2 * W)
+            if ENG._check(eb > hi_)[0] != "unsat":
                 raise EngineBound("left shift count range too large")
-            hb = W
+            while lo_ < hi_:
+                mid = (lo_ + hi_) // 2
+                if ENG._check(eb > mid)[0] == "unsat":
+                    hi_ = mid
+                else:
+                    lo_ = mid + 1
+            hb = hi_
         c = [la << lb, la << hb, ha << lb, ha << hb]
         return _mk(ea << eb, min(c), max(c))
 
@@ -658,8 +666,9 @@ class Engine:
         self.choose_limit = choose_limit
         self.hash_collapse = False
         # opt-in (harness sets ENG.staged_check): a feasibility query the incremental solver does not decide
-        # within staged_quick_ms is handed to a fresh QF_BV tactic solver (much better at unsatisfiable
-        # arithmetic), then tried with * / % abstracted to uninterpreted functions (symx/solve.py; only
+        # within staged_quick_ms is tried through the exact linear-integer translation (symx/solve.py: systems of
+        # linear inequalities are hard to bit-blast), then handed to a fresh QF_BV tactic solver (much better
+        # at unsatisfiable arithmetic), then tried with * / % abstracted to uninterpreted functions (only
         # 'unsat' transfers), before it counts as unknown
         self.staged_check = False
         self.staged_quick_ms = 1500
@@ -728,8 +737,12 @@ class Engine:
                 m = self.solver.model()
             elif r == z3.unknown:
                 from . import solve
-                r, m = solve.check_fresh(list(self.pc) + list(extra), self.timeout_ms)
-                self.stats["fresh_checks"] = self.stats.get("fresh_checks", 0) + 1
+                r, m = solve.check_int(self.pc, extra, min(10000, self.timeout_ms))
+                if r != z3.unknown:
+                    self.stats["int_checks"] = self.stats.get("int_checks", 0) + 1
+                else:
+                    r, m = solve.check_fresh(list(self.pc) + list(extra), self.timeout_ms)
+                    self.stats["fresh_checks"] = self.stats.get("fresh_checks", 0) + 1
                 if r == z3.unknown and solve.uf_unsat(list(self.pc) + list(extra), min(5000, self.timeout_ms)):
                     r = z3.unsat
                     self.stats["uf_pruned"] = self.stats.get("uf_pruned", 0) + 1
